@@ -470,12 +470,20 @@ class LLMGenerationActions:
                         # as it may have been altered by the input rails.
                         prompt = event["text"]
                     elif isinstance(raw_prompt, list):
-                        prompt = raw_prompt.copy()
+                        # (copies, the request of the caller is not altered)
+                        prompt = [dict(message) for message in raw_prompt]
 
-                        # In this case, if the last message is from the user, we replace the text
-                        # just in case the input rails may have altered it.
-                        if prompt[-1]["role"] == "user":
-                            raw_prompt[-1]["content"] = event["text"]
+                        # The input rails may have altered the user messages, of this turn
+                        # and of the previous ones: we use the texts of the `UserMessage`
+                        # events, which are the texts the rails have let through.
+                        user_texts = [
+                            e["text"] for e in events if e["type"] == "UserMessage"
+                        ]
+                        user_messages = [m for m in prompt if m["role"] == "user"]
+                        for message, text in zip(
+                            reversed(user_messages), reversed(user_texts)
+                        ):
+                            message["content"] = text
                     else:
                         raise ValueError(
                             f"Unsupported type for raw prompt: {type(raw_prompt)}"
